@@ -197,6 +197,8 @@ class FnTranslator:
             h = s[0]
             if h == "let":
                 stmts.append("SLet %s %s" % (self.pat(s[1]), self.expr(s[2])))
+            elif h == "letconst":
+                stmts.append("SLet (PVar %s) %s" % (cs(S(s[1])), self.expr(s[2])))
             elif h == "semi" or (h == "tail" and not last):
                 stmts.append("SExpr %s" % self.expr(s[1]))
             elif h == "tail":
@@ -335,6 +337,9 @@ class FnTranslator:
             if self.interior and name == "find" and len(e) == 4 and e[3][0] == "closure" and e[1][0] == "mcall" and \
                     S(e[1][2]) in ("into_iter", "iter") and len(e[1]) == 3:
                 return self.array_find(e[1][1], e[3])
+            if self.interior and name == "find_map" and len(e) == 4 and e[3][0] == "closure" and e[1][0] == "mcall" and \
+                    S(e[1][2]) in ("into_iter", "iter") and len(e[1]) == 3:
+                return self.array_find_map(e[1][1], e[3])
             if self.interior and name == "any" and len(e) == 4 and e[3][0] == "closure" and e[1][0] == "mcall" and \
                     S(e[1][2]) in ("into_iter", "iter") and len(e[1]) == 3:
                 return self.array_any(e[1][1], e[3])
@@ -416,6 +421,9 @@ class FnTranslator:
             # `e?`: the definition of the operator (the error is converted with From::from and returned)
             return ("(EMatch %s [(PCon \"Ok\" [PVar \"try_v\"], EVar \"try_v\"); "
                     "(PCon \"Err\" [PVar \"try_e\"], EReturn (ECon \"Err\" [ECon \"From::from\" [EVar \"try_e\"]]))])" % self.try_operand(e[1]))
+        if h == "diag" and self.interior and getattr(self, "diag_local", False):
+            # ghost state: the message is appended to the local list `__diags`, which the function returns (see translate_fn)
+            return "(EAssign \"__diags\" [] (ECall \"push\" [EVar \"__diags\"; EConst (VStr %s)]))" % cs(S(e[2]) if len(e) > 2 else "")
         if h == "diag" and self.interior and getattr(self, "diag_sink", None):
             # ghost state: the message is appended to the list `__diags` of the object being built (control flow goes on)
             x = self.diag_sink
@@ -622,6 +630,21 @@ class FnTranslator:
                 "STail (EIf %s (EAssign \"flt_acc%d\" [] (ECall \"push\" [EVar \"flt_acc%d\"; EVar %s])) (EConst VUnit))])); "
                 "STail (EVar \"flt_acc%d\")])" % (n, self.expr(src), n, n, n, cs(v), n, n, cond, n, n, cs(v), n))
 
+    def array_find_map(self, src, clo):
+        """`xs.iter().find_map(|v| BODY)`: the first Some that BODY answers, else None (BODY is not evaluated after it)"""
+        if len(clo[1]) != 2 or clo[1][1][0] != "pident":
+            raise TranslateError("closure with other than one plain parameter")
+        v = S(clo[1][1][1])
+        self.hof_no = getattr(self, "hof_no", 0) + 1
+        n = self.hof_no
+        body = self.expr(clo[2])
+        return ("(EBlock [SLet (PVar \"fm_src%d\") %s; SLet (PVar \"fm_res%d\") (ECon \"None\" []); "
+                "SExpr (EFor \"fm_i%d\" (EConst (VNat 0)) (ECall \"len\" [EVar \"fm_src%d\"]) "
+                "(EBlock [STail (EIfLet (PCon \"None\" []) (EVar \"fm_res%d\") "
+                "(EBlock [SLet (PVar %s) (EIndex (EVar \"fm_src%d\") (EVar \"fm_i%d\")); "
+                "STail (EAssign \"fm_res%d\" [] %s)]) (EConst VUnit))])); "
+                "STail (EVar \"fm_res%d\")])" % (n, self.expr(src), n, n, n, n, cs(v), n, n, n, body, n))
+
     def array_any(self, src, clo):
         """`xs.iter().any(|v| COND)`: whether some element satisfies COND (COND has no effects: evaluating it on the elements
         after the first hit, which `any` skips, changes nothing)"""
@@ -742,6 +765,11 @@ def translate_fn(sx, self_type=None, struct_fields=None, qualified=None, setup=N
         if "EReturn" in btext:
             raise TranslateError("fn %s: `return` inside a method translated by state passing" % name)
         btext = "(EBlock [SExpr %s; STail (EVar \"self\")])" % btext
+    if getattr(t, "diag_local", False):
+        # a checking function that returns nothing: its diagnostics, in order, are the result
+        if "EReturn" in btext:
+            raise TranslateError("fn %s: `return` inside a function translated with a local diagnostics list" % name)
+        btext = "(EBlock [SLet (PVar \"__diags\") (EArr []); SExpr %s; STail (EVar \"__diags\")])" % btext
     if prelude:
         btext = "(EBlock %s)" % clist(prelude + ["STail %s" % btext])
     text = "{| fn_name := %s; fn_params := %s; fn_consts := %s;\n     fn_body := %s |}" % (
@@ -1105,6 +1133,25 @@ def translate_attr_parser():
     return out
 
 
+def translate_checks():
+    """sylvia-derive/src/parser/mod.rs: `assert_new_method_defined` - the constructor `new` a contract needs. The function
+    returns nothing; its diagnostics, in order, are the result of the translation."""
+    def setup(t):
+        t.interior = True
+        t.diag_local = True
+    kv = fetch_ast(os.path.join(common.REPO, "sylvia-derive", "src", "parser", "mod.rs"))
+    for k, v in kv:
+        if k == "fn":
+            sx = parse_sx(v)
+            if S(sx[1]) == "assert_new_method_defined":
+                text, cl = translate_fn(sx, setup=setup)
+                bad = cl - BUILTINS - {"is_empty", "len", "push"}
+                if bad:
+                    raise TranslateError("assert_new_method_defined calls %s" % sorted(bad))
+                return [text]
+    raise TranslateError("parser/mod.rs: fn assert_new_method_defined not found")
+
+
 def translate_fold():
     """sylvia-derive/src/fold.rs: `StripInput` - what is removed from the user's item before it is re-emitted."""
     def setup(t):
@@ -1324,6 +1371,10 @@ def generate():
     except (TranslateError, KeyError, IndexError, ValueError, TypeError, AttributeError) as e:
         parsefns, _ = [], errors.append("macro logic (attribute parser: parser/attributes/mod.rs): %s" % e)
     try:
+        checkfns = translate_checks()
+    except (TranslateError, KeyError, IndexError, ValueError, TypeError, AttributeError) as e:
+        checkfns, _ = [], errors.append("macro logic (checks: parser/mod.rs): %s" % e)
+    try:
         foldfns = translate_fold()
     except (TranslateError, KeyError, IndexError, ValueError, TypeError, AttributeError) as e:
         foldfns, _ = [], errors.append("macro logic (fold.rs StripInput): %s" % e)
@@ -1394,6 +1445,9 @@ def generate():
             "(* SylviaAttribute::new / match_attribute, ParsedSylviaAttributes::new / match_attribute (state passing; diagnostics",
             "   appended to the ghost field __diags) *)",
             "Definition attrparse_fns : program :=", prog(parsefns)]),
+        "GenImpCheck.v": gen_file("checks of the contract macro (parser/mod.rs)", [
+            "(* assert_new_method_defined: its diagnostics, in order, are the result *)",
+            "Definition check_fns : program :=", prog(checkfns)]),
         "GenImpBridge.v": gen_file("the contract-level message (types/interfaces.rs, types/msg_type.rs, contract/communication/wrapper_msg.rs)", [
             "(* Interfaces::emit_*, MsgType::emit_ctx_dispatch_values, GlueMessage::emit *)",
             "Definition bridge_fns : program :=", prog(bridge)])}
